@@ -176,7 +176,8 @@ def describe(cls):
             t += ' (of an already rounded intermediate)'
         return t
     if cls[0] == 'A':
-        return 'operand %s%s passed through unrounded' % (cls[1], ''.join('[%d]' % i for i in cls[2]))
+        return 'operand %s%s%s passed through unrounded' % (
+            '-' if len(cls) > 3 and cls[3] else '', cls[1], ''.join('[%d]' % i for i in cls[2]))
     if cls[0] == 'T':
         return 'unknown (%s)' % cls[1]
     if cls[0] == 'P':
@@ -226,6 +227,28 @@ class World(object):
         env[name] = val
         facts = frozenset(f for f in self.facts if f[1] != name)
         return World(env, facts)
+
+    def unset(self, name):
+        env = dict(self.env)
+        env.pop(name, None)
+        facts = frozenset(f for f in self.facts if f[1] != name)
+        return World(env, facts)
+
+    def signs(self, name):
+        for f in self.facts:
+            if f[0] == 'sg' and f[1] == name:
+                return f[2]
+        return frozenset((-1, 0, 1))
+
+    def restrict_sign(self, name, allowed):
+        cur = self.signs(name)
+        new = cur & frozenset(allowed)
+        if not new:
+            return None
+        if new == cur:
+            return self
+        facts = frozenset(f for f in self.facts if not (f[0] == 'sg' and f[1] == name))
+        return World(self.env, facts | {('sg', name, new)})
 
     def fact(self, lit):
         """add a literal; None if it contradicts"""
@@ -294,6 +317,11 @@ def _has_rounded(c):
 def _map_modes(c, fn):
     if c[0] == 'R':
         return ('R', c[1], fn(c[2]), c[3])
+    if c[0] == 'A' and fn is mode_neg:
+        # an operand passed through negated: remember it, so that the mode of
+        # whatever is substituted for it is mapped through negative_rnd
+        neg = len(c) > 3 and c[3]
+        return ('A', c[1], c[2], not neg) if not neg else ('A', c[1], c[2])
     if c[0] == 'P':
         return pair([_map_modes(k, fn) for k in c[1]], [_map_modes(k, fn) for k in c[2]])
     return c
@@ -319,6 +347,8 @@ class KernelAnalysis(FlowAnalysis):
         self.eng = engine
         self.func = func
         self.mode = mode
+        self.record_calls = False
+        self.calls = []           # (call node, callee Func, mode term, [(param, value)], world)
         self.returns = []         # (node, frozenset classes)
         self.sites = []           # context layer: (node, expr, classes)
 
@@ -372,6 +402,12 @@ class KernelAnalysis(FlowAnalysis):
             return self.ev_attribute(e, w)
         if isinstance(e, ast.Tuple):
             return self.ev_tuple(e, w)
+        if isinstance(e, ast.List):
+            cl = set()
+            for x in e.elts:
+                v = self.ev(x, w)
+                cl |= self.as_classes(v, 'list element %s' % norm(x, 30))
+            return ('list', frozenset(cl))
         if isinstance(e, ast.Call):
             return self.ev_call(e, w)
         if isinstance(e, ast.Subscript):
@@ -527,7 +563,7 @@ class KernelAnalysis(FlowAnalysis):
                 if c[0] == 'P':
                     out |= c[1 + e.slice.value]
                 elif c[0] == 'A':
-                    out.add(('A', c[1], c[2] + (e.slice.value,)))
+                    out.add(('A', c[1], c[2] + (e.slice.value,)) + tuple(c[3:]))
                 elif c[0] == 'T':
                     out.add(c)
                 else:
@@ -556,6 +592,15 @@ class KernelAnalysis(FlowAnalysis):
             return INT([P]) if self.mode == 'context' else self.opaque(call)
         if name in ('prec_to_dps', 'bitcount', 'int', 'max', 'min', 'abs', 'len'):
             return self.ev_other_call(call, w)
+        if name == 'mpf_min_max' and len(args) == 1:
+            v = self.ev(args[0], w)
+            if v[0] == 'list':
+                return MPF([pair(v[1], v[1])])
+            return MPF([pair([('T', 'elements of %s' % norm(args[0], 30))],
+                             [('T', 'elements of %s' % norm(args[0], 30))])])
+        if name in ('MIN', 'MAX') and len(args) == 2:
+            a, b = self.ev(args[0], w), self.ev(args[1], w)
+            return self.union(a, b)
         if name in EXACT_INTEGER_PART:
             # floor/ceil/nint of the operand as an exact integer (unbounded)
             return MPF([X])
@@ -583,6 +628,12 @@ class KernelAnalysis(FlowAnalysis):
                 single = True
             return MPF(self.rounded(pv, self.ev_mode(re_, w), single))
         fs = self.eng.resolve(name)
+        if not fs:
+            # a function nested in the analysed function (or an enclosing one)
+            g = self.func
+            while g is not None and not fs:
+                fs = [nf for nf in g.nested if nf.name == name]
+                g = g.parent
         if not fs:
             return MPF([('T', 'call of %s' % name)]) if self.eng.looks_mpf(name) else UNKNOWN
         out = None
@@ -690,9 +741,22 @@ class KernelAnalysis(FlowAnalysis):
         if pname is None:
             # not a precision-taking kernel: result unknown unless it is a known exact helper
             s = self.eng.summary(f, None, self.const_args(f, actual, w))
-            self._amode = 'U'
+            if getattr(self, 'record_calls', False):
+                self.calls.append((call, f, 'U', [(p_, self.ev(a, w)) for p_, a in actual.items()], w))
+            rname0 = 'rnd' if 'rnd' in params else ('rounding' if 'rounding' in params else None)
+            amode0 = 'U'
+            if rname0 is not None and actual.get(rname0) is not None:
+                amode0 = self.ev_mode(actual[rname0], w)
+            # closures inherit the precision of the enclosing kernel
+            pv0 = None
+            if f.parent is not None:
+                for cand in PREC_NAMES:
+                    v0 = w.env.get(cand)
+                    if v0 is not None and v0[0] == 'int':
+                        pv0 = v0
+            self._amode = amode0
             self._aexact = True
-            return self.subst(s, f, actual, None, w)
+            return self.subst(s, f, actual, pv0, w)
         pe = actual.get(pname)
         if pe is None:
             d = defaults.get(pname)
@@ -701,11 +765,15 @@ class KernelAnalysis(FlowAnalysis):
             # exact mode
             if f.name in EXACT_PRESERVING and args:
                 return self.exact_preserving(f.name, self.ev(args[0], w))
+            if f.name.startswith(('mpi_', 'mpci_')):
+                return self.exact_interval_call(f, pname, actual, w)
             return MPF([X])
         pv = self.ev(pe, w)
         if pv[0] == 'int' and all(a.is_const() and a.c == 0 for a in pv[1]):
             if f.name in EXACT_PRESERVING and args:
                 return self.exact_preserving(f.name, self.ev(args[0], w))
+            if f.name.startswith(('mpi_', 'mpci_')):
+                return self.exact_interval_call(f, pname, actual, w)
             return MPF([X])
         if f.name in SMALL_CLOSED:
             # operations on special/zero/small constants only: the result is again
@@ -725,12 +793,22 @@ class KernelAnalysis(FlowAnalysis):
                     amode = 'U'
             else:
                 amode = self.ev_mode(re_, w)
-        aexact = self.operands_exact([self.ev(a, w) for p_, a in actual.items()
-                                      if p_ not in (pname, rname)])
+        opvals = [(p_, self.ev(a, w)) for p_, a in actual.items() if p_ not in (pname, rname)]
+        aexact = self.operands_exact([v for p_, v in opvals])
+        if getattr(self, 'record_calls', False):
+            self.calls.append((call, f, amode, opvals, w))
         # (nested calls evaluated above may have set these; set them last)
         self._amode = amode
         self._aexact = aexact
         return self.subst(s, f, actual, pv, w)
+
+    def exact_interval_call(self, f, pname, actual, w):
+        """interval function called without precision: analyse it with prec = 0"""
+        consts = frozenset(set(self.const_args(f, actual, w)) | {('__exact__', True)})
+        s = self.eng.summary(f, pname, consts)
+        self._amode = 'U'
+        self._aexact = True
+        return self.subst(s, f, actual, INT([Aff(0)]), w)
 
     def exact_preserving(self, fname, v):
         """mpf_neg/abs/shift/pos without precision: same bits; a negation turns a
@@ -800,7 +878,10 @@ class KernelAnalysis(FlowAnalysis):
         if c[0] == 'A':
             saved = (getattr(self, '_amode', 'U'), getattr(self, '_aexact', True))
             try:
-                return self._subst_arg(c, f, actual, w)
+                out = self._subst_arg(c, f, actual, w)
+                if len(c) > 3 and c[3]:
+                    out = set(_map_modes(k, mode_neg) for k in out)
+                return out
             finally:
                 self._amode, self._aexact = saved
         if c[0] == 'P':
@@ -831,7 +912,7 @@ class KernelAnalysis(FlowAnalysis):
                     if k[0] == 'P':
                         nxt |= k[1 + idx]
                     elif k[0] == 'A':
-                        nxt.add(('A', k[1], k[2] + (idx,)))
+                        nxt.add(('A', k[1], k[2] + (idx,)) + tuple(k[3:]))
                     else:
                         nxt.add(k if k[0] == 'T' else ('T', 'component of non-pair'))
                 cls = nxt
@@ -903,6 +984,22 @@ class KernelAnalysis(FlowAnalysis):
             t = w.fact(('nzm', name))
             f = w.fact(('zm', name))
             return ([t] if t else []), ([f] if f else [])
+        if isinstance(test, ast.Compare) and len(test.ops) == 2 and \
+                all(isinstance(o, ast.Eq) for o in test.ops):
+            # a == b == c  <=>  a == b and b == c
+            c1 = ast.Compare(left=test.left, ops=[ast.Eq()], comparators=[test.comparators[0]])
+            c2 = ast.Compare(left=test.comparators[0], ops=[ast.Eq()], comparators=[test.comparators[1]])
+            c3 = ast.Compare(left=test.left, ops=[ast.Eq()], comparators=[test.comparators[1]])
+            return self.split(ast.BoolOp(op=ast.And(), values=[c3, c2, c1]), w)
+        if isinstance(test, ast.Compare) and len(test.ops) == 1 and \
+                isinstance(test.left, ast.Name) and isinstance(test.comparators[0], ast.Constant) \
+                and test.comparators[0].value == 0 and w.env.get(test.left.id, UNKNOWN)[0] != 'int':
+            sets = {ast.Lt: (-1,), ast.LtE: (-1, 0), ast.Gt: (1,), ast.GtE: (0, 1),
+                    ast.Eq: (0,), ast.NotEq: (-1, 1)}.get(type(test.ops[0]))
+            if sets is not None:
+                t = w.restrict_sign(test.left.id, sets)
+                f = w.restrict_sign(test.left.id, set((-1, 0, 1)) - set(sets))
+                return ([t] if t else []), ([f] if f else [])
         if isinstance(test, ast.Compare) and len(test.ops) == 1:
             op = test.ops[0]
             left, right = test.left, test.comparators[0]
@@ -1033,6 +1130,33 @@ class KernelAnalysis(FlowAnalysis):
                 return w
             if n == 4 and isinstance(src, ast.Assign):
                 pass
+            if n == 2 and v[0] == 'mpf' and any(isinstance(t, ast.Tuple) for t in target.elts):
+                for i, t in enumerate(target.elts):
+                    out = set()
+                    for c in v[1]:
+                        if c[0] == 'P':
+                            out |= c[1 + i]
+                        elif c[0] == 'A':
+                            out.add(('A', c[1], c[2] + (i,)) + tuple(c[3:]))
+                        else:
+                            out.add(c if c[0] == 'T' else ('T', 'unpack of non-pair'))
+                    sub = MPF(out)
+                    if isinstance(t, ast.Name):
+                        w = w.set(t.id, sub)
+                    elif isinstance(t, ast.Tuple) and len(t.elts) == 2:
+                        for j, t2 in enumerate(t.elts):
+                            if not isinstance(t2, ast.Name):
+                                continue
+                            o2 = set()
+                            for c in out:
+                                if c[0] == 'P':
+                                    o2 |= c[1 + j]
+                                elif c[0] == 'A':
+                                    o2.add(('A', c[1], c[2] + (j,)) + tuple(c[3:]))
+                                else:
+                                    o2.add(c if c[0] == 'T' else ('T', 'unpack of non-pair'))
+                            w = w.set(t2.id, MPF(o2))
+                return w
             if n == 2 and v[0] == 'mpf':
                 for i, nm in enumerate(names):
                     if nm is None:
@@ -1042,7 +1166,7 @@ class KernelAnalysis(FlowAnalysis):
                         if c[0] == 'P':
                             out |= c[1 + i]
                         elif c[0] == 'A':
-                            out.add(('A', c[1], c[2] + (i,)))
+                            out.add(('A', c[1], c[2] + (i,)) + tuple(c[3:]))
                         elif c[0] == 'T':
                             out.add(c)
                         else:
@@ -1241,7 +1365,7 @@ class RoundEngine(object):
         defaults = f.defaults()
         for p in f.all_params():
             if p == pname:
-                env[p] = INT([P])
+                env[p] = INT([Aff(0)]) if cd.get('__exact__') else INT([P])
             elif p in ('rnd', 'rounding'):
                 env[p] = ('rnd', 'param')
                 if cd.get(p) is True:
@@ -1258,6 +1382,14 @@ class RoundEngine(object):
                     env[p] = UNKNOWN
             else:
                 env[p] = MPF([('A', p, ())])
+        # free precision variable of an enclosing kernel (closures such as
+        # mpi_cos_sin.finalize)
+        g = f.parent
+        while g is not None:
+            for cand in PREC_NAMES:
+                if cand in g.params and cand not in env:
+                    env[cand] = INT([P])
+            g = g.parent
         # integer-looking parameters are harmless as ('A', ...) because they are
         # only classified when returned
         return World(env, frozenset(facts))
@@ -1279,6 +1411,7 @@ class RoundEngine(object):
         cache = self.__dict__.setdefault('_detail', {})
         if key not in cache:
             ka = KernelAnalysis(self, f)
+            ka.record_calls = True
             w0 = self.initial_world(f, pname, consts)
             ka.run(f.body(), frozenset([w0]))
             cache[key] = ka
